@@ -6,6 +6,13 @@ Streams
          (monoidal + rigid, also through the model's `eqv`/`seqv`; cat arrows, tensor.Diagram,
          quantum Circuit, zx.Diagram on the real code only)
   seval  model correspondence for Sum(...), +, >>, @, dagger on sums of 0-3 terms
+  zoo    the same laws on diagrams built from EVERY box subclass of every module through its own
+         constructor with all flag combinations (grammar Words with a domain, Cup/Cap/Swap of each
+         class, Measure/Encode/MixedState/Discard/Bits/Ket/Bra/ClassicalGate/Copy/Match/Controlled/
+         rotations/scalars on bit AND qubit wires, zx spiders/Had/Scalar, tensor Spider/Bubble,
+         biclosed rule boxes, cartesian Copy/Discard/Swap) and from the class-level constructors
+         (cups, caps, swap, permutation): box level exhaustively, then inside grown diagrams; `==`
+         AND dom/cod/boxes/offsets read by key (harness/zoolib.py)
 """
 import random
 
@@ -13,6 +20,7 @@ from common import Driver, Report, ser_result, lean_obligations, err_class
 from core import Family, Gen, tok_expr, expr_size
 from exprgen import ExprGen
 from sums import SumGen, run_sum, tok_sexpr, ser_sum_result
+from zoolib import Zoo, ZOO_NAMES, strong_eq, scan_failure, tkey, sbox_spec, special_sweep
 
 PROP = "C02"
 F15 = "sum_left_distrib_term_order"
@@ -287,6 +295,260 @@ def cat_laws(rng):
     yield "then_empty_r", lambda: s >> Sum([], y, x), lambda: Sum([], x, x), 2, "s"
 
 
+
+# --------------------------------------------------------------------------- the zoo (zoolib.py)
+
+
+def spec_ty_tokens(t):
+    objs = list(t.objects)
+    return [str(len(objs))] + ["%s %d" % ("".join(repr(x.name).split()), getattr(x, "z", 0)) for x in objs]
+
+
+def srepr(x):
+    """repr that cannot fail (a few library __repr__s do on legal values: not C02's business)."""
+    if isinstance(x, tuple):
+        return "(" + ", ".join(srepr(y) for y in x) + ")"
+    try:
+        return repr(x)
+    except Exception:  # noqa
+        try:
+            return "<%s %s: %s -> %s, %d boxes>" % (type(x).__name__, getattr(x, "name", ""), x.dom, x.cod, len(x))
+        except Exception:  # noqa
+            return "<unprintable %s>" % type(x).__name__
+
+
+def zoo_unary(Z, d, tag="", all_slices=True):
+    """Laws with one operand `d` (a bare box, a one-box diagram, a grown diagram, a dagger).
+    Yields (law, nboxes, thunk); the thunk returns None when the law holds, else the reason."""
+    I = lambda t: Z.cls.id(t)
+    n = len(d)
+    E = lambda x, y: strong_eq(Z, x, y)
+    yield tag + "id_then", n, lambda: E(I(d.dom) >> d, d)
+    yield tag + "then_id", n, lambda: E(d >> I(d.cod), d)
+    yield tag + "tensor_unit_l", n, lambda: E(I(Z.mk_ty([])) @ d, d)
+    yield tag + "tensor_unit_r", n, lambda: E(d @ I(Z.mk_ty([])), d)
+    # every cut; the clamped / negative slice points are class-independent (core stream): all of them
+    # in the thorough tier, one of each kind in the quick tier
+    for i in (range(-n - 2, n + 3) if all_slices else [-1] + list(range(0, n + 1)) + [n + 2]):
+        yield tag + "slice_then", n, (lambda i=i: E(d[:i] >> d[i:], d))
+    if not Z.dagger_ok(d):
+        return
+    memo = []
+
+    def dag():
+        """d[::-1], evaluated once (a refusal is raised again inside every law that needs it)."""
+        if not memo:
+            try:
+                memo.append((d[::-1], None))
+            except Exception as exc:  # noqa
+                memo.append((None, exc))
+        if memo[0][1] is not None:
+            raise memo[0][1]
+        return memo[0][0]
+
+    def objects():
+        t = dag()
+        if tkey(t.dom) != tkey(d.cod) or tkey(t.cod) != tkey(d.dom):
+            return "dagger is %r -> %r by key, the operand is %r -> %r" % (
+                tkey(t.dom), tkey(t.cod), tkey(d.dom), tkey(d.cod))
+        if not (t.dom == d.cod and t.cod == d.dom):
+            return "d[::-1].dom == d.cod and d[::-1].cod == d.dom is False"
+        return None
+    yield tag + "dagger_objects", n, objects
+    yield tag + "dagger_welltyped", n, lambda: scan_failure(Z.plain(dag()))
+    yield tag + "dagger_dagger", n, lambda: E(dag()[::-1], d)
+    yield tag + "dagger_method", n, lambda: E(d.dagger(), dag())
+    yield tag + "dagger_plain", n, lambda: E(Z.plain(d)[::-1], dag())
+    for k in range(0, n + 1):
+        # dagger reverses composition at every cut of d, and the dagger slices back together
+        yield tag + "dagger_then_cut", n, (lambda k=k: E(dag(), d[k:][::-1] >> d[:k][::-1]))
+        yield tag + "slice_then_of_dagger", n, (lambda k=k: E(dag()[:k] >> dag()[k:], dag()))
+
+    def then_self():
+        x = d >> dag()
+        if tkey(x.dom) != tkey(d.dom) or tkey(x.cod) != tkey(d.dom):
+            return "d >> d[::-1] is %r -> %r by key, expected an endomorphism of %r" % (
+                tkey(x.dom), tkey(x.cod), tkey(d.dom))
+        y = dag() >> d
+        if tkey(y.dom) != tkey(d.cod) or tkey(y.cod) != tkey(d.cod):
+            return "d[::-1] >> d is %r -> %r by key, expected an endomorphism of %r" % (
+                tkey(y.dom), tkey(y.cod), tkey(d.cod))
+        return E(x[::-1], x) or E(y[::-1], y)
+    yield tag + "dagger_then_self", 2 * n, then_self
+
+
+def zoo_sums(Z, d, u):
+    """Sum laws on the parallel pair d, e (e = d >> d[::-1] >> d where there is a dagger, else d)."""
+    E = lambda x, y: strong_eq(Z, x, y)
+    dag = Z.dagger_ok(Z.plain(d))
+    try:
+        pd, pu = Z.plain(d), Z.plain(u)
+        e = pd >> pd[::-1] >> pd if dag else pd
+        r = pd[::-1] if dag else Z.cls.id(pd.cod)        # composable after pd
+        q = pd[::-1] if dag else Z.cls.id(pd.dom)        # composable before pd
+        s = pd + e
+        zero = Z.cls.sum([], pd.dom, pd.cod)
+        pu + pu
+    except Exception as exc:  # noqa  -- forming d + e must not fail
+        def reraise(exc=exc):
+            raise exc
+        yield "sum_construction", 2, reraise
+        return
+    yield "add_unit_l", 2, lambda: E(zero + s, s)
+    yield "add_unit_r", 2, lambda: E(s + zero, s)
+    yield "then_distrib_r", 3, lambda: E(s >> r, (pd >> r) + (e >> r))
+    yield "diagram_then_distrib", 3, lambda: E(q >> s, (q >> pd) + (q >> e))
+    yield "tensor_distrib_r", 3, lambda: E(s @ pu, (pd @ pu) + (e @ pu))
+    yield "diagram_tensor_distrib", 3, lambda: E(pu @ s, (pu @ pd) + (pu @ e))
+    yield "then_empty", 2, lambda: E(s >> Z.cls.sum([], pd.cod, pd.dom), Z.cls.sum([], pd.dom, pd.dom))
+    if not dag:
+        return
+    yield "dagger_distrib", 2, lambda: E(s[::-1], pd[::-1] + e[::-1])
+    yield "sum_dagger_dagger", 2, lambda: E(s[::-1][::-1], s)
+    yield "sum_dagger_objects", 2, lambda: (
+        None if tkey(s[::-1].dom) == tkey(s.cod) and tkey(s[::-1].cod) == tkey(s.dom)
+        else "dagger of the sum is %r -> %r by key" % (tkey(s[::-1].dom), tkey(s[::-1].cod)))
+
+
+def zoo_nary(Z, a, b, c, u, v, w):
+    """a >> b >> c composable, u, v, w free."""
+    I = lambda t: Z.cls.id(t)
+    E = lambda x, y: strong_eq(Z, x, y)
+    nb = len(a) + len(b) + len(c)
+    yield "then_assoc", nb, lambda: E((a >> b) >> c, a >> (b >> c))
+    yield "lshift", nb, lambda: E(c << b << a, a >> b >> c)
+    nt = len(u) + len(v) + len(w)
+    yield "tensor_assoc", nt, lambda: E((u @ v) @ w, u @ (v @ w))
+    yield "tensor_eq_whisker", len(u) + len(v), lambda: E(u @ v, u @ I(v.dom) >> I(u.cod) @ v)
+    yield "whisker_types", len(u), lambda: (
+        None if tkey((u @ I(v.dom)).dom) == tkey(u.dom) + tkey(v.dom)
+        and tkey((I(v.cod) @ u).cod) == tkey(v.cod) + tkey(u.cod) else "whiskered dom/cod wrong by key")
+    ab, uv = a >> b, u @ v
+    for i in range(-len(uv) - 1, len(uv) + 2):
+        yield "slice_then", len(uv), (lambda i=i: E(uv[:i] >> uv[i:], uv))
+    if Z.dagger_ok(ab):
+        yield "dagger_then", len(ab), lambda: E(ab[::-1], b[::-1] >> a[::-1])
+        if Z.dagger_ok(c):
+            yield "dagger_then3", nb, lambda: E((a >> b >> c)[::-1], c[::-1] >> (b[::-1] >> a[::-1]))
+    if Z.dagger_ok(uv):
+        yield "dagger_dagger", len(uv), lambda: E(uv[::-1][::-1], uv)
+        yield "dagger_welltyped", len(uv), lambda: scan_failure(uv[::-1])
+        # not claimed: (u @ v)[::-1] == u[::-1] @ v[::-1] (false as ==); its OBJECT part is claimed
+        yield "dagger_objects", len(uv), lambda: (
+            None if tkey(uv[::-1].dom) == tkey(u.cod) + tkey(v.cod)
+            and tkey(uv[::-1].cod) == tkey(u.dom) + tkey(v.dom) else "dagger of a tensor: wrong dom/cod by key")
+
+
+def zoo_stream(rep, Z, rng, n_random, n_forced_rounds, sample_every=1):
+    """`sample_every` = k > 1 (quick tier): the one-box variant / the sum laws of the forced stream run on
+    every k-th item (phase from the seed), all slice points only in the thorough tier."""
+    onebox_every, full = sample_every, sample_every == 1
+    fam = "zoo-" + Z.name
+
+    def run_laws(gen, operands, items):
+        for it in items:
+            rep.count("zoo-box:%s:%s" % (Z.name, it.cls))
+        for law, nb, thunk in gen:
+            try:
+                why = thunk()
+                real = "ok 1" if why is None else "ok 0"
+            except Exception as exc:  # noqa
+                why, real = "raised %s: %s" % (err_class(exc), str(exc)[:300]), "err"
+            rep.count("law-family:" + fam)
+            rep.count("law:" + law)
+            rep.case("%s %s %s" % (fam, law, operands[:700]), nb >= 2)
+            if real == "ok 1":
+                continue
+            base = law.split(":")[-1]
+            masked = [it.quarantine for it in items if it.quarantine and base in it.qlaws]
+            if masked:
+                sig = masked[0]
+            else:
+                sig = ("law_fails:" if real == "ok 0" else "law_raises:") + base
+            rep.fail(sig, dict(family=fam, law=law, operands=operands[:1500],
+                               built_from=[it.label for it in items]),
+                     "%s in %s on %s: %s" % (law, fam, operands[:400], why))
+
+    def safe(label, fn):
+        """Building an operand on the real code must not fail either."""
+        try:
+            return fn()
+        except Exception as exc:  # noqa
+            rep.fail("zoo_construction_raises", dict(family=fam, what=label),
+                     "%s in %s raised %s: %s" % (label, fam, err_class(exc), str(exc)[:300]))
+            return None
+
+    # (1) box level, exhaustive over the zoo (independent of the seed)
+    phase = rng.randrange(onebox_every)
+    for idx, it in enumerate(Z.items):
+        v = it.value
+        if it.kind == "box" and Z.no_dagger(v) and Z.has_dagger:
+            # no dagger is defined for this class: the refusal must be a TypeError, not a wrong value
+            try:
+                got = v.dagger()
+                rep.count("dagger-now-available:" + it.cls)
+                if strong_eq(Z, got.dagger(), v) or tkey(got.dom) != tkey(v.cod) or tkey(got.cod) != tkey(v.dom):
+                    rep.fail("law_fails:dagger_of_undaggerable", dict(family=fam, box=it.label),
+                             "%s.dagger() returned %s which is not an involutive, identity-on-objects "
+                             "dagger" % (it.label, srepr(got)))
+            except TypeError:
+                rep.count("dagger-unavailable:" + it.cls)
+            except Exception as exc:  # noqa
+                rep.fail("law_raises:dagger_of_undaggerable", dict(family=fam, box=it.label),
+                         "%s.dagger() raised %s" % (it.label, err_class(exc)))
+        run_laws(zoo_unary(Z, v, "box:" if it.kind == "box" else "piece:", full),
+                 "%s = %s" % (it.label, srepr(v)), [it])
+        if it.kind == "box" and idx % onebox_every == phase:
+            # the same through the one-box diagram wrapping it (Diagram.dagger instead of Box.dagger)
+            pv = safe("one-box diagram of " + it.label, lambda: Z.plain(v))
+            if pv is not None:
+                run_laws(zoo_unary(Z, pv, "onebox:", full), "one-box diagram of %s = %s" % (it.label, srepr(v)), [it])
+    # (2) every item inside a grown diagram (the item first, then its dagger puts it last)
+    for rnd in range(n_forced_rounds):
+        for idx, it in enumerate(Z.items):
+            used = []
+            dom, off = Z.start(rng, first=it)
+            d = safe("diagram around " + it.label,
+                     lambda: Z.grow(rng, dom, rng.randint(0, 2), first=it, first_off=off, used=used))
+            if d is None:
+                continue
+            run_laws(zoo_unary(Z, d, "", full), "d = " + srepr(d), used)
+            if (idx + rnd) % sample_every != phase and not it.quarantine:
+                continue
+            u = safe("free operand", lambda: Z.grow(rng, Z.start(rng)[0], rng.randint(0, 2), maxw=3, used=used))
+            if u is not None:
+                run_laws(zoo_sums(Z, d, u), "d = %s; u = %s" % (srepr(d), srepr(u)), used)
+    # (3) random composable triples and free triples
+    for _ in range(n_random):
+        used = []
+
+        def g(dom, depth, maxw=6):
+            x = Z.grow(rng, dom, depth, maxw=maxw, used=used)
+            if len(x) == 1 and type(x.boxes[0]).__module__.startswith("discopy") \
+                    and tkey(x.dom) == tkey(x.boxes[0].dom) and rng.random() < 0.5 \
+                    and hasattr(x.boxes[0], "name"):
+                return x.boxes[0]                     # a bare box instance
+            return x
+        def operands():
+            a = g(Z.start(rng)[0], rng.randint(0, 3))
+            b = g(list(a.cod.objects), rng.randint(0, 3))
+            c = g(list(b.cod.objects), rng.randint(0, 2))
+            u = g(Z.start(rng)[0][:2], rng.randint(0, 3), 3)
+            v = g(Z.start(rng)[0][:2], rng.randint(0, 2), 3)
+            w = g(Z.start(rng)[0][:2], rng.randint(0, 2), 3)
+            return a, b, c, u, v, w
+        ops = safe("random operands", operands)
+        if ops is None:
+            continue
+        a, b, c, u, v, w = ops
+        text = "a = %s; b = %s; c = %s; u = %s; v = %s; w = %s" % tuple(srepr(x) for x in ops)
+        run_laws(zoo_nary(Z, a, b, c, u, v, w), text, used)
+        ab = safe("a >> b", lambda: a >> b)
+        if ab is not None:
+            run_laws(zoo_unary(Z, ab, "", full), "d = (%s) >> (%s)" % (srepr(a), srepr(b)), [])
+        run_laws(zoo_sums(Z, a, u), "d = %s; u = %s" % (srepr(a), srepr(u)), [])
+
+
 # --------------------------------------------------------------------------- the check
 
 def classify_failure(law, shape, vals):
@@ -310,7 +572,13 @@ def run(tier, seed, replay=None):
                 "layer, empty domains, scalars, daggered boxes, swaps, cups/caps, bare box "
                 "instances) and sums of 0-3 terms; slices at every integer from -n-2 to n+2; "
                 "non-trivial = the operands of the law instance carry >= 2 boxes (diagram laws) / "
-                ">= 2 terms overall (sum laws); distinct by (law, token form of the left-hand side)")
+                ">= 2 terms overall (sum laws); distinct by (law, token form of the left-hand side); "
+                "zoo: every box subclass of monoidal/rigid/biclosed/tensor/circuit/zx/cartesian and of the "
+                "grammar modules through its own constructor with all flag combinations, on bit AND qubit "
+                "wires (distribution keys zoo-box:<module>:<class>, zoo-items:<module>), each one bare, as a "
+                "one-box diagram, first in a grown diagram (last in its dagger) and in random composable "
+                "triples; sbox: every modelled special box + a random sweep over constructor arguments "
+                "against Model/Special.lean")
     rep.partial = [
         "left distributivity of a SUM over a sum (sum x sum) holds only up to the order of the "
         "terms when the left factor has >= 2 terms: theorems then/tensor_distrib_l_partial "
@@ -320,12 +588,29 @@ def run(tier, seed, replay=None):
         "laws there: python-function boxes have no dagger) and cat.Arrow are exercised by the "
         "law stream on the real code only (the theorems are about the generic Diagram model; the "
         "subclass upgrade is `same data`)",
+        "special box subclasses: dagger at box level is modelled and proved (identity on objects for all, "
+        "involutive on SBox.Plain); the involution for ALL of them is false for the code as it is "
+        "(circuit.Box(_dagger=None), QuantumGate(data=...), Scalar(name=...)/Sqrt with non-real data: "
+        "findings F42a-c, refuted in Lean by not_specialDaggerInvolutive*, proved for the patched "
+        "dagger by special_dagger_dagger_patched); Sqrt, Bubbles, biclosed rule boxes, Curry and "
+        "cartesian pieces are outside Model/Special.lean (oracle on the real code only)",
+        "classes for which the library defines no dagger are excluded from the DAGGER laws only: "
+        "cartesian boxes (python functions), biclosed FA/BA/FC/BC/FX/BX/Curry and Bubbles (the "
+        "inherited cat.Box.dagger refuses their constructor signature with TypeError; counted as "
+        "dagger-unavailable:<class>, any other outcome is reported)",
+        "a Sum cannot be formed from ClassicalGate(data=None) / cartesian.Box(function=None) because "
+        "Sum names itself by repr(terms) and their __repr__ raises (findings F42d, F42e)",
     ]
     rep.assumptions = [
         "box names/data are generator-chosen tokens; numeric data in semantic classes are exact "
         "(ints, dyadic phases) so `==` on arrays compares identical floats",
         "dagger does NOT commute with tensor as == (only up to interchange): not part of the "
         "property, refuted in Lean (dagger_tensor_fails), not checked by the oracle",
+        "zoo: phases and scalars are dyadic (multiples of 1/8) so negation/conjugation is exact; "
+        "documented-abstract classes (gates.Parametrized, gates.Rotation, zx.Spider) are not "
+        "instantiated directly, only through their concrete subclasses",
+        "oracle equality in the zoo: == in both directions (a bare box through its one-box diagram) "
+        "AND dom/cod/offsets/box dom-cod read by key (name, z; Over/Under recursively)",
     ]
     rep.lean = lean_obligations(PROP, thorough=not quick)
     rng = random.Random(seed)
@@ -495,6 +780,74 @@ def run(tier, seed, replay=None):
                         sig = classify_failure(law, shape, vals) if real == "ok 0" else "law_raises:" + law
                         rep.fail(sig, dict(family=name, law=law, values=[repr(z)[:500] for z in vals]),
                                  "%s in %s: %s" % (law, name, real))
+        # ---------------------------------------------------------------- the zoo (real code)
+        zoos = {}
+        for name in ZOO_NAMES:
+            try:
+                Z = Zoo(name)
+            except Exception as exc:  # noqa  -- a constructor of the library refused a documented call
+                import traceback
+                rep.fail("zoo_construction_raises", dict(family="zoo-" + name,
+                                                         traceback=traceback.format_exc()[-1500:]),
+                         "building the box subclasses of %s raised %s: %s" % (name, err_class(exc), exc))
+                continue
+            rep.count("zoo-items:" + name, len(Z.items))
+            zoo_stream(rep, Z, random.Random(rng.getrandbits(64)),
+                       n_random=(12 if quick else 150), n_forced_rounds=(1 if quick else 6),
+                       sample_every=(3 if quick else 1))
+            zoos[name] = Z
+        # ---------------------------------------------------------------- special boxes against the model
+        # Model/Special.lean: constructor arguments -> dom, cod, dagger; every zoo box of a modelled
+        # class plus a random sweep over the constructors' arguments and flags
+        sb = [("zoo-%s:%s" % (n, it.label), it.value, it) for n, Z in zoos.items() for it in Z.items
+              if it.kind == "box"]
+        sb += [(lab, b, None) for lab, b in
+               special_sweep(random.Random(rng.getrandbits(64)), 300 if quick else 5000)]
+        lines, todo = [], []
+        for label, b, it in sb:
+            if isinstance(b, Exception):
+                rep.fail("zoo_construction_raises", dict(family="sweep"),
+                         "a constructor of the sweep raised %s: %s" % (err_class(b), str(b)[:300]))
+                continue
+            try:
+                spec = sbox_spec(b)
+            except Exception as exc:  # noqa
+                rep.fail("sbox_unreadable", dict(box=label), "reading %s raised %s" % (label, err_class(exc)))
+                continue
+            if spec is None:
+                rep.count("sbox-unmodelled:" + type(b).__name__)
+                continue
+            todo.append((label, b, spec, it))
+            lines.append("sbox " + spec)
+        for (label, b, spec, it), model in zip(todo, drv.ask_many(lines)):
+            dg = None
+            try:
+                dg = b.dagger()
+                dspec = sbox_spec(dg)
+                real = "ok %s %s %s" % (" ".join(spec_ty_tokens(b.dom)), " ".join(spec_ty_tokens(b.cod)),
+                                        dspec if dspec is not None else "unmodelled:" + type(dg).__name__)
+            except Exception as exc:  # noqa
+                real = "err " + err_class(exc)
+            rep.count("sbox:" + spec.split(" ")[0])
+            rep.case("sbox " + spec, True)
+            if real != model:
+                rep.disagree("sbox", dict(box=label, line="sbox " + spec), real, model)
+            # the property itself on the real values: identity on objects, involutive (==)
+            try:
+                if dg is None:
+                    raise RuntimeError("dagger raised")
+                why = None
+                if tkey(dg.dom) != tkey(b.cod) or tkey(dg.cod) != tkey(b.dom):
+                    why = "dagger is %r -> %r by key, the box is %r -> %r" % (
+                        tkey(dg.dom), tkey(dg.cod), tkey(b.dom), tkey(b.cod))
+                elif not (dg.dagger() == b and b == dg.dagger()):
+                    why = "box[::-1][::-1] != box"
+            except Exception as exc:  # noqa
+                why = "raised " + err_class(exc)
+            if why:
+                known = it is not None and it.quarantine and "dagger_dagger" in it.qlaws and why.endswith("!= box")
+                rep.fail(it.quarantine if known else "law_fails:box_dagger", dict(box=label, spec=spec),
+                         "%s (%s): %s" % (label, spec, why))
     finally:
         drv.close()
     return rep.finish()
